@@ -9,7 +9,8 @@
 //	         (3 name key iv ((seed len) ...))  a cipher made by the factory NewCrypt(name, key, iv):
 //	            the messages are encrypted in order on one instance and decrypted in reverse
 //	            order on a second one; ref = crypto/cipher CFB (salsa20.XORKeyStream, identity)
-//	observed = (panicked (out ...)) | (keystream enc dec) | (enc dec) | (panicked ((enc dec ref) ...))
+//	         (4 bs mul key iv dec seed len)  crypto/cipher's own CFB stream over the toy block
+//	observed = (panicked (out ...)) | (keystream enc dec) | (enc dec) | (panicked ((enc dec ref) ...)) | (panicked out)
 //
 // Go-side sweep (out.GoChecked / out.Violation): every factory name against crypto/cipher's
 // CFB with the same key and the first block of the IV, round trip, decryption out of order
@@ -103,6 +104,23 @@ func run(in Sx) Sx {
 		return List(Bytes(enc), Bytes(dec))
 	case 3:
 		return runFactory(in)
+	case 4:
+		// crypto/cipher's CFB stream itself over the toy block (the model std_cfb is compared with it)
+		blk := &toyBlock{bs: in.At(1).AsInt(), mul: byte(in.At(2).AsInt()), key: in.At(3).AsBytes()}
+		iv := in.At(4).AsBytes()
+		src := lcg(in.At(6).Uint64(), in.At(7).AsInt())
+		dst := make([]byte, len(src))
+		p, _ := Catch(func() {
+			if in.At(5).AsBool() {
+				stdcipher.NewCFBDecrypter(blk, iv).XORKeyStream(dst, src)
+			} else {
+				stdcipher.NewCFBEncrypter(blk, iv).XORKeyStream(dst, src)
+			}
+		})
+		if p {
+			return List(Bool(true), Bytes(nil))
+		}
+		return List(Bool(false), Bytes(dst))
 	}
 	return List()
 }
@@ -436,6 +454,22 @@ func gen(a Args, out *Out) {
 		in = List(Int(2), Uint(uint64(rng.Intn(1<<31))), Int(int64(n)))
 		out.Case("none", n > 0, in, run(in))
 	}
+	// the stock CFB stream over the toy block (correspondence of the model std_cfb)
+	nstd := 150
+	if a.Thorough() {
+		nstd = 1500
+	}
+	for s := 0; s < nstd; s++ {
+		bs := rng.PickInt(8, 16)
+		ivlen := bs
+		if rng.Chance(1, 12) {
+			ivlen = rng.PickInt(bs-1, bs+1, 0, 2*bs) // newCFB panics
+		}
+		n := rng.PickInt(0, 1, bs-1, bs, bs+1, 3*bs+rng.Intn(bs), 8*bs, rng.Intn(20*bs), rng.Intn(20*bs))
+		in := List(Int(4), Int(int64(bs)), Int(int64(rng.Intn(256)|1)), Bytes(rng.Bytes(bs)), Bytes(rng.Bytes(ivlen)),
+			Bool(rng.Bool()), Uint(uint64(rng.Intn(1<<16))), Int(int64(n)))
+		out.Case("stdlib", n > 0, in, run(in))
+	}
 	// ciphers made by the factory, as cases (real-cipher output travels as an oracle table)
 	nfac := 16
 	if a.Thorough() {
@@ -484,17 +518,21 @@ func factorySweep(a Args, out *Out, rng *Rng) {
 			}
 			iv := rng.Bytes(ivlen)
 			prev := List(Uint(0), Int(0))
-			fail := func(what string, seed uint64, n int) {
+			fail := func(code, what string, seed uint64, n int) {
 				// replayable: the message before the failing one and the failing one
 				in := List(Int(3), Str(rc.name), Bytes(key), Bytes(iv), List(prev, List(Uint(seed), Int(int64(n)))))
-				violation(out, "C16/factory/"+rc.name+"/"+what, fmt.Sprintf("cipher %q, message length %d: %s", rc.name, n, what), List(in, run(in)))
+				nm := rc.name
+				if nm == "" {
+					nm = "default"
+				}
+				violation(out, "C16/factory/"+nm+"/"+code, fmt.Sprintf("cipher %q, message length %d: %s", rc.name, n, what), List(in, run(in)))
 			}
 			var enc, dec xcipher.BlockCryptor
 			if p, v := Catch(func() {
 				enc = xcipher.NewCrypt(rc.name, append([]byte(nil), key...), append([]byte(nil), iv...))
 				dec = xcipher.NewCrypt(rc.name, append([]byte(nil), key...), append([]byte(nil), iv...))
 			}); p {
-				fail(fmt.Sprintf("factory panics: %v", v), 0, 0)
+				fail("panic", fmt.Sprintf("factory panics: %v", v), 0, 0)
 				continue
 			}
 			// every length, in a shuffled order on the same pair of instances; the ciphertexts
@@ -526,7 +564,7 @@ func factorySweep(a Args, out *Out, rng *Rng) {
 					pn, _ := Catch(func() { got = dec.Decrypt(append([]byte(nil), p.ct...)) })
 					out.GoChecked++
 					if pn || !bytes.Equal(got, p.msg) {
-						fail("decrypt(encrypt(m)) != m (out of order, after losses)", p.seed, len(p.msg))
+						fail("roundtrip", "decrypt(encrypt(m)) != m (out of order, after losses)", p.seed, len(p.msg))
 						bad = true
 						return
 					}
@@ -540,24 +578,24 @@ func factorySweep(a Args, out *Out, rng *Rng) {
 				pn, _ := Catch(func() { ct = append([]byte{}, enc.Encrypt(append([]byte(nil), msg...))...) })
 				out.GoChecked++
 				if pn {
-					fail("Encrypt panics", seed, n)
+					fail("panic", "Encrypt panics", seed, n)
 					bad = true
 					break
 				}
 				if len(ct) != n {
-					fail("length changed", seed, n)
+					fail("length", "length changed", seed, n)
 					bad = true
 					break
 				}
 				want, err := reference(rc.name, key, iv, msg)
 				out.GoChecked++
 				if err != nil {
-					fail("reference cipher: "+err.Error(), seed, n)
+					fail("reference", "reference cipher: "+err.Error(), seed, n)
 					bad = true
 					break
 				}
 				if !bytes.Equal(ct, want) {
-					fail("ciphertext differs from the stock implementation (crypto/cipher CFB with the first block of the IV / salsa20.XORKeyStream / identity)", seed, n)
+					fail("stock-cfb", "ciphertext differs from the stock implementation (crypto/cipher CFB with the first block of the IV / salsa20.XORKeyStream / identity)", seed, n)
 					bad = true
 					break
 				}
@@ -570,7 +608,7 @@ func factorySweep(a Args, out *Out, rng *Rng) {
 					stdcipher.NewCFBDecrypter(blk, iv[:blk.BlockSize()]).XORKeyStream(back, ct)
 					out.GoChecked++
 					if !bytes.Equal(back, msg) {
-						fail("crypto/cipher CFB decrypter does not recover the message", seed, n)
+						fail("stock-cfb-decrypt", "crypto/cipher CFB decrypter does not recover the message", seed, n)
 						bad = true
 						break
 					}
